@@ -80,7 +80,9 @@ SrcShapes ==
     [] SrcPreset = "lean2" -> {<<3, 4>>}
     [] SrcPreset = "lean3" -> {<<2, 3, 2>>}
     [] SrcPreset = "lean"  -> {<<5>>, <<3, 4>>, <<2, 3, 2>>}
-SrcKinds == CASE SrcPreset \in {"1d", "1d7", "lean", "lean1", "lean2", "lean3"} -> {"i"} [] SrcPreset = "rnd" -> {"i", "f"} [] SrcPreset = "red" -> {"i", "b", "n"}
+    [] SrcPreset = "cre"   -> {<<6>>, <<3, 4>>}
+    [] SrcPreset = "cube"  -> {<<2, 2, 2>>}
+SrcKinds == CASE SrcPreset \in {"1d", "1d7", "lean", "lean1", "lean2", "lean3"} -> {"i"} [] SrcPreset = "cube" -> {"i", "c"} [] SrcPreset = "rnd" -> {"i", "f"} [] SrcPreset = "red" -> {"i", "b", "n", "m"} [] SrcPreset = "cre" -> {"c"}
               [] OTHER -> {"i", "f", "b"}
 
 \* source data: distinct small integers (index-mapping errors change values);
@@ -90,9 +92,13 @@ SrcData(shape, kind, salt) ==
      CASE kind = "i" -> (k - 1) + salt
        [] kind = "f" -> QNorm(<<2 * (k - 1) + 1 + 2 * salt, 2>>)
        [] kind = "b" -> B(((k + salt) * 3) % 5 < 2)
+       \* "c": a constant creation array (da.full) built with a USER-PINNED name (C06: a rewrite product must not keep it)
+       [] kind = "c" -> 3 + salt
        \* "n": inexact data with NaNs (every fourth element, starting at the second) and a repeated value
-       [] kind = "n" -> IF k % 4 = 2 THEN QNaN ELSE QNorm(<<2 * ((k - 1) % 5) + 1 + 2 * salt, 2>>)]
-MkSrc(shape, kind, salt) == Arr(shape, SrcData(shape, kind, salt), IF kind = "n" THEN "f" ELSE kind)
+       [] kind = "n" -> IF k % 4 = 2 THEN QNaN ELSE QNorm(<<2 * ((k - 1) % 5) + 1 + 2 * salt, 2>>)
+       \* "m": mostly NaN in an irregular pattern: blocks get lanes that are all-NaN next to lanes that are partly NaN
+       [] kind = "m" -> IF (k * 7) % 5 < 3 THEN QNaN ELSE QNorm(<<2 * ((k - 1) % 5) + 1 + 2 * salt, 2>>)]
+MkSrc(shape, kind, salt) == Arr(shape, SrcData(shape, kind, salt), IF kind \in {"n", "m"} THEN "f" ELSE IF kind = "c" THEN "i" ELSE kind)
 
 \* chunk grid of a source: every grid (exhaustive: the replayer iterates over
 \* the set `grids`) or one picked at random (simulation)
@@ -120,7 +126,9 @@ Start ==
 
 NActs == Cardinality({j \in 1..Len(prog) : prog[j].a # "Source"})
 NumHandles == Len(env)
-CanStep == env # <<>> /\ NActs < MaxLen
+\* a terminal action (its denotation is a placeholder even in SHAPE) ends the program
+Terminal == prog # <<>> /\ "terminal" \in DOMAIN prog[Len(prog)]
+CanStep == env # <<>> /\ NActs < MaxLen /\ ~Terminal
 Level2 == IF Acts2 = {} THEN Acts ELSE Acts2
 Allowed(a) == IF NActs = 0 THEN a \in Acts ELSE IF NActs = 1 \/ Acts3 = {} THEN a \in Level2 ELSE a \in Acts3
 
@@ -201,6 +209,55 @@ Index ==
   /\ \E x \in Pick(Live) : \E idx \in IdxTuples(env[x].shape) :
        Push([a |-> "Index", x |-> x, idx |-> idx, ok |-> IndexOK(env[x].shape, idx)],
             IF IndexOK(env[x].shape, idx) THEN BasicIndex(env[x], idx) ELSE Err)
+
+\* several new axes mixed with integers and slices: every placement of 2 (or 3) None entries in an index whose
+\* per-axis elements range over {full slice, 1:, ::-1, 0, -1}
+NoneMixDom(n) == {SliceIx(None, None, None), SliceIx(1, None, None), SliceIx(None, None, -1), IntIx(0), IntIx(-1)}
+IndexNone ==
+  /\ Allowed("IndexNone") /\ CanStep
+  /\ \E x \in Pick({h \in Live : Rank(env[h]) >= 1 /\ Rank(env[h]) <= 3}) :
+       LET sh == env[x].shape r == Rank(env[x])
+           base == CASE r = 1 -> {<<e>> : e \in NoneMixDom(sh[1])}
+                     [] r = 2 -> {<<e, f>> : e \in NoneMixDom(sh[1]), f \in NoneMixDom(sh[2])}
+                     [] r = 3 -> {<<e, f, g>> : e \in NoneMixDom(sh[1]), f \in NoneMixDom(sh[2]), g \in {SliceIx(None, None, None), IntIx(0)}}
+           two == {InsertAt(InsertAt(t, p, NoneIx), q, NoneIx) : t \in base, p \in 1..(r + 1), q \in 1..(r + 2)}
+           three == IF r <= 2 THEN {InsertAt(t, q, NoneIx) : t \in two, q \in 1..(r + 3)} ELSE {}
+       IN \E idx \in Pick(two \cup three) :
+            Push([a |-> "Index", x |-> x, idx |-> idx, ok |-> IndexOK(sh, idx)],
+                 IF IndexOK(sh, idx) THEN BasicIndex(env[x], idx) ELSE Err)
+
+\* A "diamond": one fusable node reached from the root along two paths that carry different transposes (blockwise
+\* fusion has to notice when the two paths map the root's block index differently: C04 closure, C02 provenance).
+\*   a = x + 1;  v = a second 1-D source;  r = T(p2, mid(T(p1, a))) + T(q, a)      mid in {+ v (broadcast), * 2, negative}
+\* One step pushes the seven actions; every triple of 3-D permutations is enumerated.
+MultiPush(acts, vs) ==
+  /\ env' = env \o vs
+  /\ vals' = vals \o vs
+  /\ prog' = prog \o [j \in 1..Len(acts) |-> acts[j] @@ [out |-> Len(env) + j]]
+DiamondAct ==
+  /\ Allowed("Diamond") /\ CanStep
+  /\ \E x \in Pick({h \in Live : Rank(env[h]) = 3 /\ env[h].kind = "i" /\ env[h].shape[1] = env[h].shape[2]
+                                    /\ env[h].shape[2] = env[h].shape[3]}) :
+     \E p1 \in Pick(Perms(3)) : \E p2 \in Pick(Perms(3)) : \E q \in Pick(Perms(3)) : \E mid \in Pick({"bcast", "scalar", "neg"}) :
+       LET n == Len(env)
+           vshape == <<env[x].shape[3]>>
+           vv == MkSrc(vshape, "i", 1)                      \* a second (from_array) source: the broadcast operand
+           v1 == Binary("add", env[x], Scalar(1, "i"))
+           v2 == Transpose(v1, p1)
+           v3 == CASE mid = "bcast" -> Binary("add", v2, vv) [] mid = "scalar" -> Binary("mul", v2, Scalar(2, "i")) [] OTHER -> Unary("negative", v2)
+           v4 == Transpose(v3, p2)
+           v5 == Transpose(v1, q)
+           v6 == Binary("add", v4, v5)
+           ew(op, a, b, sc) == [a |-> "Elemwise", op |-> op, x |-> a, y |-> b, scalar |-> sc, skind |-> IF b = 0 THEN "i" ELSE "none", swap |-> FALSE]
+       IN MultiPush(<<SrcAct(vshape, "i", 1),
+                      ew("add", x, 0, 1),
+                      [a |-> "Transpose", x |-> n + 2, perm |-> p1],
+                      CASE mid = "bcast" -> ew("add", n + 3, n + 1, 0) [] mid = "scalar" -> ew("mul", n + 3, 0, 2)
+                        [] OTHER -> [a |-> "Unary", op |-> "negative", x |-> n + 3],
+                      [a |-> "Transpose", x |-> n + 4, perm |-> p2],
+                      [a |-> "Transpose", x |-> n + 2, perm |-> q],
+                      ew("add", n + 5, n + 6, 0)>>,
+                    <<vv, v1, v2, v3, v4, v5, v6>>)
 
 ScalarDom(kind) == IF kind = "f" THEN {<<1, 2>>, <<-3, 2>>, <<2, 1>>} ELSE {-1, 0, 2, 3}
 ArithOps == {"add", "sub", "mul", "maximum", "minimum"}
@@ -285,12 +342,12 @@ RechunkAct ==
 
 RedOpOK(op, A) ==
   /\ (op = "prod" => Size(A.shape) <= 12 /\ \A k \in 1..Len(A.data) : IF A.kind = "f" THEN Abs(A.data[k][1]) <= 5 ELSE Abs(A.data[k]) <= 3)
-  /\ (op \in {"nansum", "nanmin", "nanmax", "nanmean"} => A.kind = "f")
+  /\ (op \in {"nansum", "nanmin", "nanmax", "nanmean", "nanargmin", "nanargmax"} => A.kind = "f")
   /\ (op \in {"mean", "var", "nanmean"} => Size(A.shape) <= 24)
   /\ (op = "ptp" => A.kind # "b")
 ReduceAct ==
   /\ Allowed("Reduce") /\ CanStep
-  /\ \E x \in Pick({h \in Live : Rank(env[h]) >= 1}) : \E op \in Pick(L(RedOps \ {"argmin", "argmax"}, {"sum", "max", "mean", "any"})) :
+  /\ \E x \in Pick({h \in Live : Rank(env[h]) >= 1}) : \E op \in Pick(L(RedOps \ {"argmin", "argmax", "nanargmin", "nanargmax"}, {"sum", "max", "mean", "any"})) :
        \E axes \in Pick(AxisSubsets(Rank(env[x]))) : \E kd \in Pick(L({TRUE, FALSE}, {op = "sum" /\ Cardinality(axes) = 1})) :
          \E se \in Pick(L({0, 2, 3} \cup (IF Rank(env[x]) = 2 THEN {23} ELSE {}), {IF op \in {"sum", "mean"} THEN 2 ELSE 0})) :
          /\ RedOpOK(op, env[x])
@@ -301,13 +358,15 @@ ReduceAct ==
 
 ArgReduce ==
   /\ Allowed("ArgReduce") /\ CanStep
-  /\ \E x \in Pick({h \in Live : Rank(env[h]) >= 1}) : \E op \in Pick(L({"argmin", "argmax"}, {"argmax"})) : \E se \in Pick(L({0, 2, 3}, {2})) :
+  /\ \E x \in Pick({h \in Live : Rank(env[h]) >= 1}) : \E op \in Pick(L({"argmin", "argmax", "nanargmin", "nanargmax"}, {"argmax"})) : \E se \in Pick(L({0, 2, 3}, {2})) :
        \/ \E ax \in Pick(1..Rank(env[x])) : \E kd \in Pick(L({TRUE, FALSE}, {FALSE})) :
-            Push([a |-> "Reduce", op |-> op, x |-> x, axes |-> <<ax>>, keepdims |-> kd, split_every |-> se,
-                  ok |-> ReduceOK(op, env[x], {ax})],
-                 IF ReduceOK(op, env[x], {ax}) THEN Reduce(op, env[x], {ax}, kd) ELSE Err)
-       \/ Push([a |-> "ArgFlat", op |-> op, x |-> x, split_every |-> se, ok |-> Size(env[x].shape) > 0],
-               IF Size(env[x].shape) > 0 THEN ArgFlat(op, env[x]) ELSE Err)
+            /\ (op \in {"nanargmin", "nanargmax"} => env[x].kind = "f")
+            /\ Push([a |-> "Reduce", op |-> op, x |-> x, axes |-> <<ax>>, keepdims |-> kd, split_every |-> se,
+                     ok |-> ReduceOK(op, env[x], {ax})],
+                    IF ReduceOK(op, env[x], {ax}) THEN Reduce(op, env[x], {ax}, kd) ELSE Err)
+       \/ LET flatok == Size(env[x].shape) > 0 /\ (op \in {"nanargmin", "nanargmax"} => \E j \in 1..Len(env[x].data) : ~VIsNaN(env[x].data[j], env[x].kind))
+          IN /\ (op \in {"nanargmin", "nanargmax"} => env[x].kind = "f")
+             /\ Push([a |-> "ArgFlat", op |-> op, x |-> x, split_every |-> se, ok |-> flatok], IF flatok THEN ArgFlat(op, env[x]) ELSE Err)
 
 CumulativeAct ==
   /\ Allowed("Cumulative") /\ CanStep
@@ -389,6 +448,17 @@ PadRepeat ==
             /\ SmallEnough([b \in 1..Rank(env[x]) |-> IF b = ax THEN env[x].shape[b] + bf + af ELSE env[x].shape[b]])
             /\ Push([a |-> "Pad", x |-> x, axis |-> ax, before |-> bf, after |-> af, mode |-> mode],
                     PadAxis(env[x], ax, bf, af, mode))
+       \* a callable mode (np.pad's contract: the callable edits each 1-D vector IN PLACE, once per axis): it doubles the
+       \* data part of its vector and writes 7 into the pads, so after the passes over all r axes the data is scaled by
+       \* 2^r and the pads of axis ax (written in pass ax, doubled by the later passes) hold 7 * 2^(r - ax)
+       \/ /\ Rank(env[x]) <= 3 /\ env[x].kind = "i"
+          /\ \E bf \in Pick({0, 1, 2}) : \E af \in Pick({0, 2}) :
+               LET A == env[x] r == Rank(env[x])
+                   P == PadAxis(Arr(A.shape, [k \in 1..Len(A.data) |-> (2 ^ r) * A.data[k]], "i"), ax, bf, af, "constant")
+                   M == PadAxis(Arr(A.shape, [k \in 1..Len(A.data) |-> 1], "i"), ax, bf, af, "constant") IN
+               /\ SmallEnough(P.shape)
+               /\ Push([a |-> "Pad", x |-> x, axis |-> ax, before |-> bf, after |-> af, mode |-> "udf"],
+                       Arr(P.shape, [k \in 1..Len(P.data) |-> IF M.data[k] = 1 THEN P.data[k] ELSE 7 * (2 ^ (r - ax))], "i"))
        \/ \E reps \in Pick(L(1..3, {2})) : \E kind \in Pick({"Repeat", "Tile"}) :
             /\ SmallEnough([b \in 1..Rank(env[x]) |-> IF b = ax THEN env[x].shape[b] * reps ELSE env[x].shape[b]])
             /\ Push([a |-> kind, x |-> x, axis |-> ax, reps |-> reps],
@@ -440,6 +510,19 @@ MapBlocksAct ==
   /\ \E x \in Pick({h \in Live : Rank(env[h]) >= 1 /\ Rank(env[h]) <= 3}) : \E ax \in Pick(1..Rank(env[x])) :
        \E use \in Pick({"block_info", "block_id", "both"}) :
          Push([a |-> "MapBlocks", x |-> x, axis |-> ax, use |-> use], AddGlobalIndex(env[x], ax))
+
+\* A per-block function whose result depends on WHICH elements share a block (it subtracts the block's first element):
+\* legal under map_blocks, whose contract is "the function runs on the blocks `.chunks` advertises".  The chunk grid is the
+\* replayer's choice, so the specification cannot give the value: the denotation is a PLACEHOLDER (shape and kind only) and
+\* the replayer computes the reference from the advertised grid (C02: every form must agree with the raw form).
+BlockFirstAct ==
+  /\ Allowed("BlockFirst") /\ CanStep
+  /\ \E x \in Pick({h \in Live : Rank(env[h]) >= 1 /\ Rank(env[h]) <= 2 /\ env[h].kind = "i"}) :
+       \/ Push([a |-> "BlockFirst", x |-> x, mode |-> "first", placeholder |-> TRUE], env[x])
+       \* map_blocks(f, chunks=...) with an explicit per-block size declaration frozen against the advertised grid:
+       \* f keeps the first half of its block.  The result's SHAPE depends on the grid too: the action is terminal.
+       \/ /\ Rank(env[x]) = 1
+          /\ Push([a |-> "BlockFirst", x |-> x, mode |-> "half", placeholder |-> TRUE, terminal |-> TRUE], env[x])
 
 (***************************************************************************)
 (* In-place operations (C11)                                               *)
@@ -541,6 +624,27 @@ AdvIndexAct ==
                  IN Push([a |-> "AdvIndex", mode |-> "ellipsis", x |-> x, elem |-> e, where |-> where, ok |-> ok],
                          IF ok THEN BasicIndex(A, idx) ELSE Err)
 
+\* map_overlap(f, depth, boundary) with the local stencil f of radius = depth (C19)
+OverlapAct ==
+  /\ Allowed("Overlap") /\ CanStep
+  /\ \E x \in Pick({h \in Live : Rank(env[h]) >= 1 /\ Rank(env[h]) <= 2 /\ env[h].kind # "b"}) : \E ax \in Pick(1..Rank(env[x])) :
+       \E r \in Pick({1, 2}) : \E mode \in Pick({"reflect", "periodic", "nearest", "constant", "none"}) :
+         /\ env[x].shape[ax] >= r /\ env[x].shape[ax] >= 1
+         /\ Push([a |-> "Overlap", x |-> x, axis |-> ax, depth |-> r, boundary |-> mode], Stencil(env[x], ax, r, mode))
+
+DiagonalAct ==
+  /\ Allowed("Diagonal") /\ CanStep
+  /\ \E x \in Pick({h \in Live : Rank(env[h]) >= 2 /\ Rank(env[h]) <= 3}) :
+       \E ax1 \in Pick(1..Rank(env[x])) : \E ax2 \in Pick(1..Rank(env[x])) : \E off \in Pick({0, 1, -1}) :
+         /\ ax1 # ax2
+         /\ Push([a |-> "Diagonal", x |-> x, axis1 |-> ax1, axis2 |-> ax2, offset |-> off], Diagonal(env[x], off, ax1, ax2))
+
+\* stacking two arrays of DIFFERENT shapes is an error in NumPy (C28: also when the sizes are still unknown)
+StackMismatchAct ==
+  /\ Allowed("StackMismatch") /\ CanStep
+  /\ \E x \in Pick({h \in Live : Rank(env[h]) = 1}) : \E y \in Pick({h \in Live : Rank(env[h]) = 1 /\ env[h].shape # env[x].shape}) :
+       Push([a |-> "StackMismatch", xs |-> <<x, y>>, pos |-> 1, ok |-> FALSE], Err)
+
 (***************************************************************************)
 (* Random arrays (C06, C07, C23): the values are a REALIZATION the          *)
 (* specification cannot predict; the handle's denotation is a placeholder  *)
@@ -565,7 +669,7 @@ PersistAct ==
 
 Next ==
   \/ Start
-  \/ RechunkSpecAct \/ MapBlocksAct \/ SetItemAct \/ MaskSetAct \/ OutUfuncAct \/ MaskSelectAct \/ UnknownAct \/ ComputeChunkSizesAct \/ RandomAct \/ AdvIndexAct \/ PersistAct
+  \/ RechunkSpecAct \/ MapBlocksAct \/ BlockFirstAct \/ IndexNone \/ DiamondAct \/ SetItemAct \/ MaskSetAct \/ OutUfuncAct \/ MaskSelectAct \/ UnknownAct \/ ComputeChunkSizesAct \/ RandomAct \/ AdvIndexAct \/ DiagonalAct \/ StackMismatchAct \/ OverlapAct \/ PersistAct
   \/ Index \/ Elemwise \/ UnaryAct \/ AsTypeAct \/ TransposeAct \/ ReshapeAct \/ ExpandSqueeze \/ FlipRoll
   \/ ConcatStack \/ RechunkAct \/ ReduceAct \/ ArgReduce \/ CumulativeAct \/ DiffAct \/ WhereAct \/ TakeAct
   \/ BroadcastAct \/ WindowAct \/ WindowReduce \/ DotAct \/ PadRepeat \/ TopKAct
